@@ -3,12 +3,13 @@ import Driver.Base64
 import Driver.Mime
 import Driver.Net
 import Driver.Headers
+import Driver.Cookie
 
 open Drv
 
 def dispatch (line : String) : String :=
   let ws := words line
-  let ops : List (List String → Option String) := [base64Op, mimeOp, netOp, headersOp]
+  let ops : List (List String → Option String) := [base64Op, mimeOp, netOp, headersOp, cookieOp]
   match ops.findSome? (fun f => f ws) with
   | some r => r
   | none => "bad-op"
